@@ -12,9 +12,11 @@ import (
 	"slices"
 	"strconv"
 	"strings"
+	"sync/atomic"
 	"time"
 
 	"github.com/AdguardTeam/AdGuardDNS/internal/agd"
+	"github.com/AdguardTeam/AdGuardDNS/internal/agdservice"
 	"github.com/AdguardTeam/AdGuardDNS/internal/backendpb"
 	"github.com/AdguardTeam/AdGuardDNS/internal/cmd"
 	"github.com/AdguardTeam/AdGuardDNS/verifh/hlib"
@@ -225,6 +227,80 @@ func (h *harness) wiringCampaign() {
 		h.runWiringCase(rng, own, wiringConf{timeout: to, fullIvl: "1h", retryIvl: "1h", refreshIvl: "30ms", est: "1KB"}, n+i, false, true)
 		own.gs.Stop()
 	}
+	h.workerLifecycle(rng)
+}
+
+// workerLifecycle runs the real agdservice.RefreshWorker (the type the builder
+// starts for the profile database) over scripted refreshers whose k-th refresh
+// panics, and compares the number of refreshes that ever happen with the
+// model's workerEvs: the recover is outside the loop, so the first panic is
+// the last refresh, while the process lives on.
+func (h *harness) workerLifecycle(rng *rand.Rand) {
+	r := h.r
+	n := 4
+	if h.o.Thorough() {
+		n = 16
+	}
+	var mlines, mwant []string
+	for i := 0; i < n; i++ {
+		script := make([]byte, 3+rng.IntN(5))
+		for k := range script {
+			script[k] = 'e'
+		}
+		if i%4 != 3 {
+			script[rng.IntN(len(script)-1)] = 'p'
+		}
+		var calls atomic.Int64
+		w := agdservice.NewRefreshWorker(&agdservice.RefreshWorkerConfig{
+			Context: func() (context.Context, context.CancelFunc) { return context.WithCancel(context.Background()) },
+			Refresher: agdservice.RefresherFunc(func(context.Context) error {
+				k := int(calls.Add(1)) - 1
+				if k < len(script) && script[k] == 'p' {
+					panic("scripted panic inside Refresh")
+				}
+
+				return nil
+			}),
+			Logger:   slogutil.NewDiscardLogger(),
+			Interval: 2 * time.Millisecond,
+		})
+		_ = w.Start(context.Background())
+		want := len(script)
+		if k := strings.IndexByte(string(script), 'p'); k >= 0 {
+			want = k + 1
+		}
+		deadline := time.Now().Add(5 * time.Second)
+		for int(calls.Load()) < want && time.Now().Before(deadline) {
+			time.Sleep(time.Millisecond)
+		}
+		// Ticks go on for some time: does anything still refresh?
+		time.Sleep(40 * time.Millisecond)
+		got := min(int(calls.Load()), len(script))
+		_ = w.Shutdown(context.Background())
+		mlines = append(mlines, "worker "+string(script))
+		mwant = append(mwant, strconv.Itoa(got))
+		r.Count("wiring:worker-lifecycle-cases")
+		if got < len(script) {
+			r.Count("wiring:worker-stopped-by-panic")
+		}
+	}
+	ans := h.m.Batch(mlines)
+	r.ModelOps += len(mlines)
+	for k := range mlines {
+		if ans[k] != mwant[k] {
+			r.Disagree("model-vs-refresh-worker", fmt.Sprintf("%q: model applies %s refreshes, the real RefreshWorker ran %s", mlines[k], ans[k], mwant[k]), map[string]any{"campaign": "wiring", "line": mlines[k]})
+
+			break
+		}
+	}
+}
+
+// guardPanic runs f and returns what it panicked with, if anything.
+func guardPanic(f func()) (pv any) {
+	defer func() { pv = recover() }()
+	f()
+
+	return nil
 }
 
 func (h *harness) runWiringCase(rng *rand.Rand, ws *wiringSrv, c wiringConf, caseNo int, stalls, worker bool) {
@@ -413,11 +489,25 @@ func (h *harness) runWiringCase(rng *rand.Rand, ws *wiringSrv, c wiringConf, cas
 		return true
 	}
 
+	dead := false
 	open := func(what string) (ok bool) {
 		srv.served = nil
 		wantFull := expectFull()
 		var err error
-		w, err = cmd.VerifC14InitProfileDB(ctx, c.yaml(), env, slogutil.NewDiscardLogger(), &errColl{})
+		if pv := guardPanic(func() {
+			w, err = cmd.VerifC14InitProfileDB(ctx, c.yaml(), env, slogutil.NewDiscardLogger(), &errColl{})
+		}); pv != nil {
+			// cmd.Main recovers with slogutil.RecoverAndExit: the process
+			// ends here at every start until the backend's data changes.
+			if srv.served != nil {
+				log = append(log, srv.served.line(), "wire: "+sparseText(pb, srv.served))
+			}
+			log = append(log, fmt.Sprintf("%s: builder.initProfileDB PANICS: %v", what, pv))
+			violate("start-panics", fmt.Sprintf("%s: the initial refresh panicked on a well-formed answer of the backend: %v", what, pv))
+			w, dead = nil, true
+
+			return false
+		}
 		if err != nil && (srv.fail || w == nil) {
 			log = append(log, fmt.Sprintf("%s: start-up error %v", what, err))
 			if !srv.fail {
@@ -500,6 +590,9 @@ func (h *harness) runWiringCase(rng *rand.Rand, ws *wiringSrv, c wiringConf, cas
 	steps := 3 + rng.IntN(5)
 	for k := 0; k < steps; k++ {
 		ch := rng.IntN(10)
+		if dead {
+			break
+		}
 		if w == nil {
 			// The last start was aborted: there is no process to refresh.
 			ch = 9
@@ -512,8 +605,19 @@ func (h *harness) runWiringCase(rng *rand.Rand, ws *wiringSrv, c wiringConf, cas
 			srv.served = nil
 			wantFull := expectFull()
 			rctx, cancel := w.NewRefreshCtx()
-			err := w.Refresher.Refresh(rctx)
+			var err error
+			pv := guardPanic(func() { err = w.Refresher.Refresh(rctx) })
 			cancel()
+			if pv != nil {
+				if srv.served != nil {
+					log = append(log, srv.served.line(), "wire: "+sparseText(pb, srv.served))
+				}
+				log = append(log, fmt.Sprintf("refresh PANICS: %v", pv))
+				violate("refresh-panics", fmt.Sprintf("a refresh panicked on a well-formed answer of the backend: %v (agdservice.RefreshWorker recovers outside its loop: no later synchronisation)", pv))
+				r.Case("wiring\n"+fmt.Sprint(log), false)
+
+				return
+			}
 			if afterSync("refresh", err, wantFull) {
 				lookAll(false)
 			}
